@@ -342,6 +342,45 @@ func runNaNGuard(c *Ctx, r *Reporter) {
 	if pkg == nil {
 		return
 	}
+	// the numeric ranger: the loop goes on only over the TRUE edge of an ordered comparison of its float state
+	// (a NaN start, stop or step takes every FALSE edge and must end the loop)
+	if fd := FindFunc(pkg, "(*stepRange).next"); fd != nil {
+		sf := p.SSAFunc(fd.Obj)
+		var loads []*ssa.UnOp
+		for _, b := range sf.Blocks {
+			for _, ins := range b.Instrs {
+				u, ok := ins.(*ssa.UnOp)
+				if !ok || u.Op != token.MUL || !isFloat(u.Type()) {
+					continue
+				}
+				if fa, ok := u.X.(*ssa.FieldAddr); ok {
+					if named, _ := fieldAddrInfo(fa); named != nil && named.Obj().Name() == "stepRange" {
+						loads = append(loads, u)
+					}
+				}
+			}
+		}
+		bad := ""
+		for _, ret := range returnsOf(sf) {
+			for _, rv := range resultValues(ret, 0) {
+				if k, ok := rv.(*ssa.Const); ok && k.Value != nil && k.Value.ExactString() == "false" {
+					continue
+				}
+				if nanPathReaches(sf, loads, ret.Block()) {
+					bad = p.Rel(instrPos(ret))
+				}
+			}
+		}
+		if len(loads) == 0 {
+			r.Undecided("(*stepRange).next reads no float state")
+		} else {
+			r.Check(bad == "", fd.QName()+"#nan-ends-the-loop", p.Rel(fd.Decl.Pos()), "the ranger continues only over the true edge of an ordered comparison of its state",
+				"the ranger can report another iteration ("+bad+") on a path where every ordered comparison of start/stop/step took its false edge — the path a NaN takes: "+
+					"`for i := range 0 3 (0/0)` or `range (0/0)` never ends")
+		}
+	} else {
+		r.Undecided("(*stepRange).next not found")
+	}
 	for _, fd := range Funcs(pkg) {
 		sf := p.SSAFunc(fd.Obj)
 		if sf == nil {
